@@ -402,9 +402,16 @@ pub fn run_check<C: Check>(check: &C, tier: Tier, seed: u64) -> i32 {
                             }
                             match v {
                                 Verdict::Pass => Ok(()),
-                                Verdict::Inconclusive(_) => {
+                                Verdict::Inconclusive(why) => {
                                     if !failed.load(Ordering::Relaxed) {
                                         stats.inconclusive.fetch_add(1, Ordering::Relaxed);
+                                        let mut e = stats.extra.lock().unwrap();
+                                        let list = e.entry("inconclusive_reasons".to_string()).or_insert_with(|| json!([]));
+                                        if let Some(a) = list.as_array_mut() {
+                                            if a.len() < 5 {
+                                                a.push(json!(why));
+                                            }
+                                        }
                                     }
                                     Ok(())
                                 }
